@@ -484,7 +484,7 @@ SPEC_STMT = r"""
         stmt is Block ==> (out(r), final(scopes).world()) == spec_stmt(old(scopes).world(), *stmt), // [C07_C20:bare_block_runs_in_its_own_fresh_scope_and_forwards_the_signal_of_its_body]
         stmt is If ==> (out(r), final(scopes).world()) == spec_stmt(old(scopes).world(), *stmt), // [C07_C16_C20:if_chain_runs_exactly_the_first_true_branch_or_else_each_in_its_own_fresh_scope_conditions_are_checked_to_be_bool_and_it_forwards_its_signal]
         stmt is While ==> (out(r), final(scopes).world()) == spec_stmt(old(scopes).world(), *stmt), // [C07_C16:while_rechecks_condition_each_trip_the_condition_is_checked_to_be_bool_and_break_continue_return_reach_their_target]
-        stmt is For ==> (out(r), final(scopes).world()) == spec_stmt(old(scopes).world(), *stmt), // [C07:for_walks_the_entry_snapshot_in_order_and_break_continue_return_reach_their_target]
+        stmt is For ==> (out(r), final(scopes).world()) == spec_stmt(old(scopes).world(), *stmt), // [C07_C16_C20:for_walks_the_entry_snapshot_in_order_binds_its_target_on_every_trip_and_break_continue_return_reach_their_target]
         (stmt is Break || stmt is Continue || stmt is Return) ==> (out(r), final(scopes).world()) == spec_stmt(old(scopes).world(), *stmt), // [C07:break_continue_return_signal_with_their_own_position_and_value]
         (stmt is Expr || stmt is Declare || stmt is Assign || stmt is OpAssign) ==> (out(r), final(scopes).world()) == spec_stmt(old(scopes).world(), *stmt), // [C07:simple_statement_completes_or_fails_and_never_signals]
         stmt is Func ==> (out(r), final(scopes).world()) == spec_stmt(old(scopes).world(), *stmt), // [C07_C13_C20:a_function_declaration_validates_all_its_parameters_then_declares_the_name_and_never_signals]
